@@ -365,10 +365,59 @@ const OFF_SPECIALS: &[&str] = &[
     "Z", "z", "UTC", "+05\u{a0}30", "+0a:30", "+05:a0", "+05:60", "+05:69", "+05:5", "+２３:00",
 ];
 
+/// civil date of a day count since 1970-01-01 on the proleptic Gregorian calendar, any year
+/// (era arithmetic, independent of chrono): days -> (year, month, day)
+fn civil(days: i64) -> (i64, u32, u32) {
+    let z = days + 719_468;
+    let era = z.div_euclid(146_097);
+    let doe = z.rem_euclid(146_097);
+    let yoe = (doe - doe / 1460 + doe / 36_524 - doe / 146_096) / 365;
+    let doy = doe - (365 * yoe + yoe / 4 - yoe / 100);
+    let mp = (5 * doy + 2) / 153;
+    let d = doy - (153 * mp + 2) / 5 + 1;
+    let m = if mp < 10 { mp + 3 } else { mp - 9 };
+    (yoe + era * 400 + if m <= 2 { 1 } else { 0 }, m as u32, d as u32)
+}
+/// the wall clock of a zone-aware value from its UTC timestamp and offset alone: (year, month, day,
+/// second of day, fraction field) — the year may be MIN_YEAR - 1 or MAX_YEAR + 1
+fn wall_clock(z: &DateTime<FixedOffset>) -> (i64, u32, u32, u32, u32) {
+    let wall = z.timestamp() + z.offset().local_minus_utc() as i64;
+    let (y, m, d) = civil(wall.div_euclid(86400));
+    (y, m, d, wall.rem_euclid(86400) as u32, z.naive_utc().time().nanosecond())
+}
+/// the specified text of both forms, written from `wall_clock` with the independent writers
+fn ref_zoned(z: &DateTime<FixedOffset>) -> (String, String) {
+    let (y, m, d, sod, frac) = wall_clock(z);
+    let (rd, rt, ro) = (ref_date(y as i32, m, d), ref_time(sod, frac), ref_offset(z.offset().local_minus_utc()));
+    (format!("{}T{}{}", rd, rt, ro), format!("{} {} {}", rd, rt, ro))
+}
+
 /// finding F25 (known_findings.json): a zone-aware value whose wall-clock date lies outside
 /// `NaiveDate::MIN..=MAX` prints that date (year +262143 / -262144) and `FromStr` rejects it.  Called
 /// only for such values (whole-minute offset, leap second only on second 59).
 fn report_f25(c: &mut Ctx, z: &DateTime<FixedOffset>, dbg: &Text, dsp: &Text, reported: &mut u32) {
+    // theorem `fixed_out_of_range_never_parses_back`: the wall-clock year is a headroom year, the text is
+    // the specified text of that wall clock, and a reader that does not return the value answers OutOfRange
+    let (y, _, _, _, _) = wall_clock(z);
+    if y != MIN_YEAR as i64 - 1 && y != MAX_YEAR as i64 + 1 {
+        c.fail("DateTime<FixedOffset>: checked_add_offset fails although the wall-clock year is in range", &format!("{} wall-clock year {}", sz(z), y));
+    }
+    let (rdbg, rdsp) = ref_zoned(z);
+    for (form, x, want) in [("Debug", dbg, &rdbg), ("Display", dsp, &rdsp)] {
+        if txt(x) != want {
+            c.fail(
+                &format!("DateTime<FixedOffset> {} text of an out-of-range local date is not the extended wall clock", form),
+                &format!("{:?}, expected {:?}, for {}", txt(x), want, sz(z)),
+            );
+        }
+        let got = rd_dtf(txt(x));
+        if got != "err OutOfRange" && !got.starts_with("ok ") {
+            c.fail(
+                &format!("DateTime<FixedOffset> {} of an out-of-range local date: FromStr answers neither a value nor Err(OutOfRange)", form),
+                &format!("{} text {:?} -> {}", sz(z), txt(x), got),
+            );
+        }
+    }
     for (form, x) in [("Debug", dbg), ("Display", dsp)] {
         if guard(|| txt(x).parse::<DateTime<FixedOffset>>().ok() == Some(*z)) != Ok(true) {
             c.count("dtf:out-of-range-local-date-rejected(known finding F25)");
@@ -524,6 +573,23 @@ pub fn run(c: &mut Ctx) {
         }
         let (dbg, dsp) = (dbg_text(&z), dsp_text(&z));
         c.op(&format!("tx.dtf {}", sz(&z)), &format!("{} | {}", both(&dbg, &rd_dtf), both(&dsp, &rd_dtf)));
+        // the crate's own range test of the wall clock against the independent one
+        // (`InRangeSecs (wallSecs z)` of the theorems: the wall-clock year lies in MIN_YEAR..=MAX_YEAR)
+        {
+            let (y, _, _, _, _) = wall_clock(&z);
+            if local_ok != (MIN_YEAR as i64 <= y && y <= MAX_YEAR as i64) {
+                c.fail("DateTime<FixedOffset>: checked_add_offset disagrees with the wall-clock year being in range", &format!("{} wall-clock year {} local_ok {}", sz(&z), y, local_ok));
+            }
+            // both forms are the specified text of the independently computed wall clock (all offsets,
+            // with or without a seconds part, in and out of range)
+            let (rdbg, rdsp) = ref_zoned(&z);
+            if txt(&dbg) != rdbg {
+                c.fail("DateTime<FixedOffset> Debug is not the text of the independently computed wall clock", &format!("{:?}, expected {:?}, for {}", txt(&dbg), rdbg, sz(&z)));
+            }
+            if txt(&dsp) != rdsp {
+                c.fail("DateTime<FixedOffset> Display is not the text of the independently computed wall clock", &format!("{:?}, expected {:?}, for {}", txt(&dsp), rdsp, sz(&z)));
+            }
+        }
         if !local_ok && strict && whole_min {
             report_f25(c, &z, &dbg, &dsp, &mut f25_reported);
         }
